@@ -112,7 +112,7 @@ def _child(args, crash, delays, wfd):
     os._exit(code)
 
 
-def run_tool(args, crash=None, delays=None, timeout=120):
+def run_tool(args, crash=None, delays=None, timeout=600):
     """Run the CLI in a forked child. Returns dict(status=exit code or -signal, reports=[...])."""
     rfd, wfd = os.pipe()
     pid = os.fork()
@@ -144,8 +144,11 @@ def run_tool(args, crash=None, delays=None, timeout=120):
         if time.time() - t0 > timeout:
             os.kill(pid, 9)
             os.waitpid(pid, 0)
-            status = -999
-            break
+            os.close(rfd)
+            # a time budget hit is inconclusive, never a violation
+            from ..core import HarnessError
+
+            raise HarnessError("tool run exceeded %d s (machine overloaded?)" % timeout)
         time.sleep(0.002)
     os.close(rfd)
     reports, items = [], []
